@@ -70,6 +70,19 @@ def monitor(case):
     return None
 
 
+def copy_monitor(c):
+    """copy mode (hand-ticked driver, default copy middleware, several queues): None or a description"""
+    if c.get('panic'):
+        return 'the driver panicked in a multi-queue copy run: %s' % c['panic']
+    if c.get('stuck'):
+        return 'DrainCommandQueue never returns: ' + c['stuck']
+    if c.get('idle_running'):
+        return 'queue idle but IsRunning: ' + c['idle_running']
+    if c.get('bad_data'):
+        return 'queues are not isolated (data): ' + c['bad_data']
+    return None
+
+
 def strip(case):
     return {'name': case.get('name', ''), 'nq': case['nq'], 'progs': case['progs'],
             'grants': case.get('grants') or [], 'policy': 'first', 'probe': bool(case.get('probe')),
@@ -141,7 +154,7 @@ def main(argv):
                        'such a GPU for LaunchKernelCommands; memory-copy middleware paths are model-only)',
                        'Driver.Terminate is not called while calls are in flight']
     thorough = vlib.tier() == 'thorough'
-    n = 1500 if thorough else 130
+    n = 1500 if thorough else 100
 
     replay_file = argv[argv.index('--replay') + 1] if '--replay' in argv else None
 
@@ -161,6 +174,42 @@ def main(argv):
     for name, axioms in thms:
         rep.obligation('theorem ' + name + (' [axioms: %s]' % ', '.join(axioms) if axioms else ' [closed under the global context]'), True)
 
+    # ---- copy mode: data isolation between queues, re-use of a queue after degenerate commands
+    copies = []
+    if replay_file:
+        obj = json.load(open(replay_file))
+        src = obj.get('case') or obj.get('cases') or obj
+        src = src if isinstance(src, list) else [src]
+        if src and src[0].get('copy'):
+            inp = os.path.join(vlib.BUILD, 'c12_%d.copy.json' % os.getpid())
+            json.dump(src, open(inp, 'w'))
+            copies, log = run_impl(binary, ['--replay', inp])
+            os.remove(inp)
+            copies = copies or []
+    else:
+        copies, log = run_impl(binary, ['--copy', '600' if thorough else '100', '--seed', str(vlib.seed())])
+        if copies is None:
+            rep.obligation('copy-mode run', False)
+            rep.violation({'broken': 'harness copy-mode run failed', 'log': log[-4000:]}, nofail=True,
+                          text='harness copy-mode run failed: ' + (log.strip().split('\n') or [''])[0][:200])
+            return rep.finish()
+    cbad = [(c, copy_monitor(c)) for c in copies]
+    cbad = [(c, m) for c, m in cbad if m]
+    if copies:
+        rep.obligation('copy mode: %d hand-ticked runs with 2-3 queues in 1-2 contexts (copies in flight together in %d of them, '
+                       'requests answered in random order across queues, zero-byte copies / no-ops / kernels followed by ordinary '
+                       'commands): data per queue = its FIFO reference, every queue drains, idle queue => IsRunning = false'
+                       % (len(copies), sum(1 for c in copies if c.get('in_flight_together', 0) >= 2)), not cbad)
+        rep.coverage['copy_mode'] = {'runs': len(copies), 'answers': sum(c.get('answers', 0) for c in copies),
+                                     'with_copies_of_2plus_queues_in_flight': sum(1 for c in copies if c.get('in_flight_together', 0) >= 2),
+                                     'zero_byte_copies': sum(1 for c in copies for p in c['progs'] for o in p if o['op'] in ('h2d', 'd2h') and not o.get('n')),
+                                     'failures': len(cbad)}
+    if cbad:
+        c, msg = cbad[0]
+        rep.violation({'property': PROP, 'what': msg, 'case': [c],
+                       'replay_cmd': 'VERIF_REPO=<tree> ./check C12 --replay <this file>'}, text=msg)
+        return rep.finish()
+
     # ---- controlled-scheduler runs on the implementation
     cases = []
     ncorpus = 0
@@ -168,7 +217,7 @@ def main(argv):
         obj = json.load(open(replay_file))
         src = obj.get('case') or obj.get('cases') or obj
         src = src if isinstance(src, list) else [src]
-        src = [c for c in src if 'progs' in c]
+        src = [c for c in src if 'progs' in c and not c.get('copy')]
         if src:
             cases, log = replay_cases(binary, [strip(c) for c in src])
             cases = cases or []
@@ -191,7 +240,7 @@ def main(argv):
                           text='harness run failed: ' + (log.strip().split('\n') or [''])[0][:200])
             return rep.finish()
         cases += gen
-        ex, log = run_impl(binary, ['--explore', '14' if thorough else '7', '--explore-runs', '4000' if thorough else '240'])
+        ex, log = run_impl(binary, ['--explore', '14' if thorough else '7', '--explore-runs', '4000' if thorough else '160'])
         if ex is None:
             rep.obligation('bounded exploration run', False)
             rep.violation({'broken': 'harness exploration run failed', 'log': log[-4000:]}, nofail=True,
